@@ -271,6 +271,50 @@ class Cls:
         return "<Cls %s>" % self.qual
 
 
+def _canon_numpy_alias(tree):
+    """`import numpy` / `import numpy as <anything>` is read as `import numpy as np` (the spelling of the pinned tree and of the rules' reference
+    texts), with every use of the alias renamed -- unless the module binds `np` to something else"""
+    alias = None
+    for n in tree.body:
+        if isinstance(n, ast.Import):
+            for a in n.names:
+                if a.name == "numpy":
+                    alias = a.asname or "numpy"
+    if alias is None or alias == "np":
+        return tree
+    for n in ast.walk(tree):
+        if (isinstance(n, ast.Name) and n.id == "np") or (isinstance(n, ast.arg) and n.arg == "np") or \
+                (isinstance(n, (ast.Import, ast.ImportFrom)) and any((a.asname or a.name) == "np" for a in n.names)):
+            return tree
+    for n in ast.walk(tree):
+        if isinstance(n, ast.Import):
+            for a in n.names:
+                if a.name == "numpy":
+                    a.asname = "np"
+        elif isinstance(n, ast.Name) and n.id == alias:
+            n.id = "np"
+    return tree
+
+
+class _StripAnnotations(ast.NodeTransformer):
+    """type annotations carry no behaviour: `x: T = v` is read as `x = v`, a bare declaration `x: T` as nothing, and annotations of parameters
+    and results are dropped (so adding or changing type hints changes nothing any rule sees)"""
+    def _fn(self, node):
+        self.generic_visit(node)
+        for a in node.args.posonlyargs + node.args.args + node.args.kwonlyargs + [x for x in (node.args.vararg, node.args.kwarg) if x is not None]:
+            a.annotation = None
+        node.returns = None
+        return node
+    visit_FunctionDef = _fn
+    visit_AsyncFunctionDef = _fn
+
+    def visit_AnnAssign(self, node):
+        self.generic_visit(node)
+        if node.value is None:
+            return ast.copy_location(ast.Pass(), node)
+        return ast.copy_location(ast.Assign(targets=[node.target], value=node.value), node)
+
+
 class Model:
     def __init__(self, repo):
         self.repo = os.path.abspath(repo)
@@ -304,7 +348,7 @@ class Model:
                 self._digest.update(src.encode())
                 raw = ast.parse(src, filename=path)  # SyntaxError -> analysis error upstream
                 pr = _Pruner()
-                tree = pr.visit(copy.deepcopy(raw))
+                tree = pr.visit(_canon_numpy_alias(_StripAnnotations().visit(copy.deepcopy(raw))))
                 tree = _expand_kw_splats(tree)
                 ast.fix_missing_locations(tree)
                 self.pruned_arms += pr.pruned
